@@ -56,8 +56,13 @@ def append_only(rng, maxlen):
     return toks
 
 
+FIELD_KINDS = ["func-addrspace", "func-sig", "global-addrspace", "global-contenttype", "alloca-addrspace", "alias-aliasee", "param-type"]
+
+
 def gen(tier, rng, harness=None):
-    lines = []
+    # cached-type state (not part of the slot model): fields feeding a lazily computed type are edited after construction, with and without
+    # interleaved pure observers (Type / String / Ident): the printed module must not depend on the observers
+    lines = ["!hist.fobs %s" % k for k in FIELD_KINDS]
     n = 1500 if tier == "quick" else 60000
     ml = 30 if tier == "quick" else 120
     for _ in range(n):
